@@ -116,7 +116,10 @@ class HelperClosure(object):
 
 
 def run(rep):
+    from .c10 import _safe
     repo = rep.repo
+    _guard = rep.guard
+    rep_guard = lambda fn, *a, **k: _guard(_safe(fn), *a, **k)
     hc = HelperClosure(repo)
     app, route, core, sinter = repo.mod(APP), repo.mod(ROUTE), repo.mod(CORE), repo.mod(SINTER)
     rep.decide('R11.a binding writes only the new object / copies containers; R11.b add() binds before it mutates; '
@@ -264,8 +267,8 @@ def run(rep):
                               'constructor-time mutation of the object\'s own container' if ok else
                               '%s mutates .%s of an existing route/application object (shared with everything it was bound into)' % (fi.key, hit[0]),
                               m, e.node)
-    rep.guard(r11a)
-    rep.guard(rep.floor, 'R11.a', 25)
+    rep_guard(r11a)
+    rep_guard(rep.floor, 'R11.a', 25)
 
     # ---- R11.b -----------------------------------------------------------
     def r11b():
@@ -347,7 +350,7 @@ def run(rep):
         rep.check('R11.b', fkey(ai, 'bind errors propagate'), ok, 'a bind failure aborts construction (no handler hides it)' if ok else
                   'Application.__init__ swallows errors from add()', app, ai.node)
 
-    rep.guard(r11b)
+    rep_guard(r11b)
 
     # ---- R11.c -----------------------------------------------------------
     def r11c():
@@ -375,8 +378,8 @@ def run(rep):
                         ok = ok or routes_writer_ok(m, _As(gq), e2)
             rep.check('R11.c', 'writer::%s::%s' % (fi.key, norm(e.node)[:70]), ok, 'set-up write of a routing table' if ok else
                       '%s writes a routing table' % fi.key, m, e.node)
-    rep.guard(r11c)
-    rep.guard(rep.floor, 'R11.c', 2)
+    rep_guard(r11c)
+    rep_guard(rep.floor, 'R11.c', 2)
 
     # ---- R11.d -----------------------------------------------------------
     def r11d():
@@ -495,5 +498,5 @@ def run(rep):
         ok = bool(lv) and all(fresh_container(dfl, dp, l, repo) for l in lv)
         rep.check('R11.d', fkey(dp, 'DEFAULT_PERIPHERALS copied'), ok, 'the shared default peripheral list is copied per MetaApplication' if ok else
                   'MetaApplication extends the shared DEFAULT_PERIPHERALS list in place', repo.mod('clastic.meta'), dp.node)
-    rep.guard(r11d)
-    rep.guard(rep.floor, 'R11.d', 8)
+    rep_guard(r11d)
+    rep_guard(rep.floor, 'R11.d', 8)
